@@ -258,6 +258,8 @@ def _stream_ops(rng, paths, nstreams, nops, texts=None):
         cons = {"k": "drain"} if r < 0.62 else {"k": "take", "n": rng.randint(0, 6), "close": rng.random() < 0.5, "throw": rng.random() < 0.2} if r < 0.9 else \
             {"k": "zip", "order": [rng.randrange(6) for _ in range(rng.randint(0, 40))]}
         op = {"op": "stream", "s": rng.randrange(nstreams), "paths": chosen, "consumer": cons}
+        if rng.random() < 0.1:
+            op["reenum"] = True
         if nstreams > 1 and cons["k"] == "drain" and rng.random() < 0.25:
             op["also"] = (op["s"] + 1) % nstreams  # every event object goes to a second stream as well
         if texts and cons["k"] != "zip" and rng.random() < 0.12:
